@@ -10,7 +10,7 @@ from ..engine import Ctx
 from ..paths import ALL_LABELS, EXC_LABELS, NORMAL_LABELS, Search
 from ..program import AnalysisError, FuncEnv
 from ..report import Collector
-from .common import (Publish, after_event_search, is_desc_key, marker_fact, notify_points, outer_site,
+from .common import (Publish, after_event_search, is_desc_key, loop_region, marker_fact, notify_points, outer_site,
                      path_text, publishes)
 
 
@@ -19,8 +19,7 @@ def _root_name(g: Graph) -> str:
 
 
 def _site_construct(ctx: Ctx, g: Graph, pub: Publish, what: str) -> str:
-    site = pub.site
-    return ctx.construct(g.root, site.node, None) + f' => {what}'
+    return ctx.construct(pub.home) + f' => {what} in task root {g.root.qualname}'
 
 
 def _executes_body(ctx: Ctx, fid: str) -> bool:
@@ -152,6 +151,7 @@ def fault_sources(g: Graph) -> List[Ev]:
 def rule_fault_reaches_run(ctx: Ctx, out: Collector) -> None:
     """WK-b: an exception that ends a task must have notified the run waiter after the last real
     suspension point (otherwise run() is never re-evaluated and waits forever)."""
+    ctx.arm_faulty_subscripts()
     mrun = ctx.manager_run().fid
     for fid, g in ctx.run_graphs().items():
         if fid == mrun:
@@ -338,8 +338,7 @@ def _enclosing_spawn_loop(ctx: Ctx, g: Graph, b: Ev) -> Optional[Ev]:
     for lp in g.events('loop'):
         if lp.inst is not b.inst or lp.info.get('comp') is not None:
             continue
-        tsucc = [m for m, lab in g.succ[lp.id] if lab == 'T']
-        region = reach(g, tsucc, stop={lp.id}, labels=NORMAL_LABELS) | set(tsucc)
+        region = loop_region(g, lp)
         if b.id not in region:
             continue
         if any(ctx.roles.spawn(g.evs[n]) for n in region if g.evs[n].kind == 'call'):
